@@ -50,6 +50,7 @@ PROFILES = {
     "str1": prof("MC_Fn", "MovesStr", 1, srcs=[10], allow_undef=True),
     "cast1": prof("MC_Fn", "MovesCast", 1, srcs=[11], allow_undef=True),
     "gsub4": prof("MC_Focus", "MovesGS", 4, srcs=[1, 6]),
+    "mixsim": prof("MC_Focus", "MovesMix", 7, srcs=[1, 6, 7], simulate=True, sim_depth=16, num=20000, invariants=[], properties=[], timeout=900),
     "tall2": prof("MC_Focus", "MovesTall", 2, srcs=[12]),
     "ty2": prof("MC_Focus", "MovesTy", 2, srcs=[1, 8, 4]),
     "err2": prof("MC_Focus", "MovesErr", 2, srcs=[1, 4]),
@@ -64,6 +65,9 @@ CROSS = {"cross-names", "cross-rows", "cross-order"}
 SUBQ = {"alias-unblocks", "polars-subquery", "never-needs"}
 
 CHECKS = {
+    # development aid (not registered in MANIFEST.json): the simulation profile alone
+    "XSIM": dict(level="model_checking", clauses={"cross-names", "cross-rows", "cross-order", "accept", "export-error", "names", "rows", "order", "group"},
+                 phases=dict(quick=[dict(profile="mixsim", num=3200)], thorough=[dict(profile="mixsim")])),
     "C01": dict(
         level="model_checking",
         clauses=CROSS | {"accept", "export-error"},
